@@ -31,7 +31,9 @@ def plan(ctx):
     m = 150 if tier == "quick" else 6000
     rules = [("rules-%d" % i, rules_seq(rng)) for i in range(m)]
     rx = [("rx-%d" % i, rx_seq(rng)) for i in range(200 if tier == "quick" else 8000)]
-    return [("corpus", corpus(ID)), ("gen", seqs), ("rules", rules), ("rx", rx)]
+    from checks import gen_proc
+    chg = [("chg-%d" % i, gen_proc.rule_change_history(rng)) for i in range(30 if tier == "quick" else 1500)]
+    return [("corpus", corpus(ID)), ("gen", seqs), ("rules", rules), ("rx", rx), ("proc", chg)]
 
 
 def hx(s):
@@ -156,6 +158,9 @@ def rx_seq(rng):
 
 
 def run(ctx, bname, seqs):
+    if seqs and seqs[0][1] and seqs[0][1][0].startswith("proc "):
+        from checks import proc_common as pc
+        return pc.run_proc(ctx, bname, seqs, SPEC_PREFIXES)
     rs = vlib.run_sequences(seqs, ctx["work"], tag=bname)
     for r in rs:   # this property only judges its own Spec messages; other messages belong to C02/C05
         r.spec = [(i, m) for (i, m) in r.spec if m.startswith(SPEC_PREFIXES)]
@@ -182,6 +187,10 @@ def tags(r):
 
 def nontrivial(r):
     seen = set()
+    if r.ops and r.ops[0].startswith("proc "):
+        # the application reconnected with a different rule list
+        rl = [w for o in r.ops if " connect " in o for w in o.split() if w.startswith("rules=")]
+        return len(set(rl)) > 1
     if r.ops and r.ops[0].startswith("rules "):
         # a rule chain in which a later rule saw what an earlier one wrote, or a terminate / ignore took effect
         return any(il and ("res=matched" in il or "res=ignore" in il) for il in r.impl)
